@@ -86,6 +86,12 @@ register(PropertySpec(
              "the truth a mapping decides from a value (fresh or bound already) follows one table"),
         Rule("EVAL-PARENT-SET", _lazy("binding", "rule_eval_parent_set"), 9,
              "operators tell a shareable operand which of its parents evaluates it"),
+        Rule("REPLAY-OR-EVALUATE", _lazy("cacheidx", "rule_replay_or_evaluate"), 2,
+             "per row of its first operand an operator either replays the cached rows of the second or evaluates it, then goes on with the next row (CFG path rule at every per-row replay site)"),
+        Rule("DEDUP-TRACKERS-DISTINCT", _lazy("binding", "rule_dedup_trackers_distinct"), 2,
+             "the duplicate trackers for true and for false rows of a node are two objects wherever the by-truth mapping is built"),
+        Rule("QUERY-FRESH-STATE", _lazy("history", "rule_query_fresh_state"), 2,
+             "(shared with C04) every evaluation of a quantifier resets the duplicate-suppression state below it first: a suspended earlier iterator of the same query must not hide rows"),
     ],
     explanation="Decides the clause 'the condition vocabulary denotes the ordinary Python operator': the node each "
                 "public comparison/membership entry constructs (arguments mapped to dataclass fields through the MRO "
@@ -139,6 +145,12 @@ register(PropertySpec(
              "a condition object placed twice (c and not_-free siblings of it) is evaluated re-entrantly: each evaluation reads the request for false rows from its own argument"),
         Rule("REG-BRANCH", _lazy("registry", "rule_reg_branch"), 2,
              "a predicate called symbolically denotes that predicate: the symbolic constructor returns the expression it built, not the condition it was conjoined into (not_ of it would negate the rest of the query)"),
+        Rule("REPLAY-OR-EVALUATE", _lazy("cacheidx", "rule_replay_or_evaluate"), 2,
+             "per row of its first operand an operator either replays the cached rows of the second or evaluates it, then goes on with the next row (CFG path rule at every per-row replay site)"),
+        Rule("DEDUP-TRACKERS-DISTINCT", _lazy("binding", "rule_dedup_trackers_distinct"), 2,
+             "the duplicate trackers for true and for false rows of a node are two objects wherever the by-truth mapping is built"),
+        Rule("REPLAY-FALSE-ASKED", _lazy("cacheidx", "rule_replay_false_asked"), 5,
+             "(shared with C05) a replay from a result cache hands on the false rows exactly when the evaluation it answers asked for them (below a negation every row of the original is a false row)"),
     ],
     explanation="Negation is a rewrite at construction time, so it is a function on syntax and is decided from the "
                 "source: the inverse-operator table is extracted by abstract evaluation of the setter's CFG (match / if "
@@ -286,6 +298,8 @@ register(PropertySpec(
              "the inferred mark of a shared variable is given by evaluation code and taken back, never at construction time"),
         Rule("REG-LIVE", _lazy("registry", "rule_reg_live_conclusions"), 1,
              "the per-evaluation reset reaches variables that only a conclusion mentions"),
+        Rule("REPLAY-OR-EVALUATE", _lazy("cacheidx", "rule_replay_or_evaluate"), 2,
+             "per row of its first operand an operator either replays the cached rows of the second or evaluates it, then goes on with the next row (CFG path rule at every per-row replay site)"),
     ],
     explanation="History independence is absence of residue on the shared expression nodes. Decided: where residue is "
                 "written (discovered mechanically from dataclass fields and mutation sites reachable from evaluation "
@@ -344,6 +358,12 @@ register(PropertySpec(
              "every evaluation of a quantified query (nested, selected, used as a domain) starts by resetting the duplicate-suppression state below it"),
         Rule("MODE-OFF-DOM", _lazy("modes", "rule_mode_off_dom"), 2,
              "the(...) evaluates with the symbolic mode off: inside a block a Predicate subclass in the description would otherwise be built, not run, and every candidate would count as a solution"),
+        Rule("REG-LIVE", _lazy("registry", "rule_reg_live"), 5,
+             "(shared with C14) a variable without a domain reads the registry when it is evaluated, every time: the outcome of the(...) on re-evaluation follows the instances that exist then"),
+        Rule("FLATTEN-EACH", _lazy("extra", "rule_flatten_paths"), 2,
+             "(shared with C16) every element of a flattened collection has an identity of its own: the result caches and duplicate filters are keyed by it, so a result recorded for one element is not replayed for its siblings (a second solution appears / disappears)"),
+        Rule("FAILURE-CTOR-TOTAL", _lazy("the", "rule_failure_ctor_total"), 2,
+             "constructing MultipleSolutionFound / NoSolutionFound cannot itself raise (no keyed lookup on the rows, no next(), no assert)"),
     ],
     explanation="The three outcomes of `the` are decided by a typestate interpretation of its evaluator over the finite "
                 "state space (result None/solution, solutions consumed 0/1/>=2, _is_false_), exception classes resolved "
@@ -391,6 +411,8 @@ register(PropertySpec(
              "every evaluation of a quantified query (nested, selected, used as a domain) starts by resetting the duplicate-suppression state below it"),
         Rule("VARS-COMPLETE", _lazy("subquery", "rule_vars_complete"), 3,
              "a concatenation reports the variables of the expression it ranges over (the per-evaluation reset of a selected concatenation reaches its parent variable through them)"),
+        Rule("DECL-FILTER", _lazy("predform", "rule_decl_filter_paths"), 1,
+             "(shared with C13) a variable given as the domain of another variable reaches it untouched (it is iterable, but over bindings): concatenate over every parent domain"),
     ],
     explanation="Decides: exactly-one-row by counting yields over all CFG paths; and interface agreement among the "
                 "implementations of the evaluation protocol (a concatenate used where the protocol passes "
@@ -446,6 +468,8 @@ register(PropertySpec(
              "a rule marks as inferred the selected variables it concludes on or that have no domain - not a flattened expression, not a domain variable selected next to them"),
         Rule("INFER-MARK", _lazy("ruletree", "rule_infer_mark_transient"), 1,
              "the inferred mark of a shared variable is given by evaluation code and taken back, never at construction time"),
+        Rule("SELECTOR-ROW-DEDUP", _lazy("ruletree", "rule_selector_row_dedup"), 2,
+             "the selectors built by refinement / alternative never drop a TRUE row because of the values of the variables the conclusions mention (two such assignments can select different conclusions)"),
     ],
     explanation="Attaching a branch rewires the condition tree in place; evaluation follows the left/right fields, not "
                 "the graph edges, so a selector that is attached in the graph but not stored in its parent's operand slot "
@@ -493,6 +517,10 @@ register(PropertySpec(
              "an outer and a nested term over one pool variable iterate the same lazily consumed domain: each is handed what the other pulled"),
         Rule("KWARGS-NAMESPACE", _lazy("predform", "rule_kwargs_namespace"), 6,
              "the functions that carry the user's field names in **kwargs keep their own parameters out of that namespace (positional-only)"),
+        Rule("COLLECTION-TABLE", _lazy("predform", "rule_collection_table"), 2,
+             "is_iterable is exactly has-__iter__ and not a string / bytes / class (truth table over its atoms): an object that is only indexable is a domain of one value"),
+        Rule("ARG-NOT-MUTATED", _lazy("predform", "rule_arg_not_mutated"), 4,
+             "(shared with C02) a predicate-form term in a caller's list of selected variables is replaced by its variable in a copy, not in the caller's list"),
     ],
     explanation="Decides the construction-time clauses: positional binding re-implemented by the library agrees with "
                 "Python's (finite abstract evaluation of the loop over scenario argument lists), the type filter uses "
@@ -542,6 +570,10 @@ register(PropertySpec(
              "whatever the index keeps that was computed from its key list is recomputed when the key list is assigned"),
         Rule("STORE-NO-ALIAS", _lazy("cacheidx", "rule_store_no_alias"), 1,
              "the coverage record of an insert is a copy of the binding, not the caller's dict"),
+        Rule("RETRIEVE-TRIE-ONLY", _lazy("cacheidx", "rule_retrieve_trie_only"), 2,
+             "retrieve() and the index methods it calls read none of the coverage state: agreement on shared keys is not containment"),
+        Rule("COVERAGE-MONOTONE", _lazy("cacheidx", "rule_coverage_monotone"), 1,
+             "outside clear() the coverage record is only added to (a drop is accepted only for records that contain the new binding)"),
     ],
     explanation="Decides 'clearing empties it' (the set of fields written by insert is contained in the set reset by "
                 "clear, computed from effects with alias tracking) and one necessary condition of 'each entry paired "
@@ -609,6 +641,10 @@ register(PropertySpec(
              "a replay from a result cache hands false rows on only to an evaluation that asked for them (the cache also holds the false rows of an evaluation that did)"),
         Rule("REPLAY-CHILD-DEDUP", _lazy("cacheidx", "rule_replay_child_dedup"), 1,
              "a replay of an operand's rows goes through the duplicate suppression that operand applies to itself when it is evaluated"),
+        Rule("REPLAY-OR-EVALUATE", _lazy("cacheidx", "rule_replay_or_evaluate"), 2,
+             "per row of its first operand an operator either replays the cached rows of the second or evaluates it, then goes on with the next row (CFG path rule at every per-row replay site)"),
+        Rule("DEDUP-TRACKERS-DISTINCT", _lazy("binding", "rule_dedup_trackers_distinct"), 2,
+             "the duplicate trackers for true and for false rows of a node are two objects wherever the by-truth mapping is built"),
     ],
     explanation="Decides that the runtime switch governs reads and writes consistently: the asymmetric state (reads "
                 "unguarded, writes guarded) changes results because an empty lookup marks everything covered. Not "
@@ -721,6 +757,10 @@ register(PropertySpec(
              "what insert() records as covered is retrievable (a row that binds none of the keys - a for_all on the right of and_ whose condition mentions only the universal variable - included)"),
         Rule("REPLAY-FALSE-ASKED", _lazy("cacheidx", "rule_replay_false_asked"), 5,
              "a replay from a result cache hands false rows on only to an evaluation that asked for them (the cache also holds the false rows of an evaluation that did)"),
+        Rule("REPLAY-OR-EVALUATE", _lazy("cacheidx", "rule_replay_or_evaluate"), 2,
+             "per row of its first operand an operator either replays the cached rows of the second or evaluates it, then goes on with the next row (CFG path rule at every per-row replay site)"),
+        Rule("REG-LIVE", _lazy("registry", "rule_reg_live"), 5,
+             "(shared with C14) a universal variable without a domain ranges over the instances that exist when the for_all is evaluated"),
     ],
     explanation="Universal quantification is implemented as a running intersection; that the accumulated set can only "
                 "shrink, is seeded once and is emptied by a value with no satisfying binding is a typestate property of "
@@ -841,6 +881,14 @@ register(PropertySpec(
              "an evaluation method that delegates to another evaluation method of the same node hands the request for false rows on unchanged (entity and set_of sub-queries behave alike on the left of `|`)"),
         Rule("DEDUP-PER-PARENT", _lazy("binding", "rule_dedup_per_parent"), 1,
              "what a node has handed on is remembered per parent (a node used under two parents owes each its rows)"),
+        Rule("REPLAY-OR-EVALUATE", _lazy("cacheidx", "rule_replay_or_evaluate"), 2,
+             "per row of its first operand an operator either replays the cached rows of the second or evaluates it, then goes on with the next row (CFG path rule at every per-row replay site)"),
+        Rule("ARG-NOT-MUTATED", _lazy("predform", "rule_arg_not_mutated"), 4,
+             "the query-building functions never write into a collection the caller passed (a parameter is stored into only after it was rebound to a fresh copy on every path)"),
+        Rule("ROW-NOT-RETAINED", _lazy("extra", "rule_row_not_retained"), 20,
+             "no generator of the engine yields a dict it keeps in its own state (consumers complete rows in place)"),
+        Rule("DEDUP-TRACKERS-DISTINCT", _lazy("binding", "rule_dedup_trackers_distinct"), 2,
+             "the duplicate trackers for true and for false rows of a node are two objects wherever the by-truth mapping is built"),
     ],
     explanation="An implicit join is a join only if every operator threads the binding it received to its operands and "
                 "keeps everything its operands bound. Both are provenance facts on the evaluation call sites and the "
@@ -896,6 +944,10 @@ register(PropertySpec(
              "what a conclusion mentions and the fired row lacks is bound first: variables with or without a domain, flattened expressions (one conclusion per element)"),
         Rule("INFER-MARK", _lazy("ruletree", "rule_infer_mark"), 5,
              "a rule marks as inferred the selected variables it concludes on or that have no domain - not a flattened expression, not a domain variable selected next to them"),
+        Rule("COLLECTION-TABLE", _lazy("predform", "rule_collection_table"), 2,
+             "(shared with C13) what flatten spreads is what has __iter__ and is not a string / bytes / class"),
+        Rule("BIND-NO-CLOBBER", _lazy("extra", "rule_bind_no_clobber"), 8,
+             "(shared with C02) a row handed on is not the dict the operand still being iterated runs under (one row per element of the flattened collection)"),
     ],
     explanation="UNNEST is 'one row per inner element, all other variables keep the binding that produced it': the "
                 "first half is a path property of one small generator, the second is the BIND-KEEP provenance rule at "
@@ -931,6 +983,10 @@ register(PropertySpec(
              "an iteration over a lazily consumed domain is handed what other live iterations pulled from the shared source"),
         Rule("SOURCE-NOT-DELEGATED", _lazy("lazy", "rule_source_not_delegated"), 1,
              "an iteration over a lazily consumed domain does not delegate to the shared one-shot source (closing the iteration would close the source)"),
+        Rule("QUERY-FRESH-STATE", _lazy("history", "rule_query_fresh_state"), 2,
+             "(shared with C04) every evaluation of a quantifier resets the duplicate-suppression state below it first: with stale state the next evaluation pulls past the prefix it needs"),
+        Rule("ITER-SNAPSHOT", _lazy("lazy", "rule_iter_snapshot"), 1,
+             "(shared with C14) the replay of the memoised prefix iterates a snapshot, so that another evaluation pulling new elements meanwhile does not break a suspended one"),
     ],
     explanation="Laziness is preserved iff nothing on the path from the user's domain to the user's next() materialises a "
                 "stream. That is a may-materialise taint analysis over every function that handles evaluation streams or "
@@ -1011,6 +1067,10 @@ register(PropertySpec(
              "the functions that carry the user's field names in **kwargs keep their own parameters out of that namespace (positional-only)"),
         Rule("DEDUP-PER-PARENT", _lazy("binding", "rule_dedup_per_parent"), 1,
              "what a node has handed on is remembered per parent (a node used under two parents owes each its rows)"),
+        Rule("QUANT-NOT-STRIPPED", _lazy("subquery", "rule_quant_not_stripped"), 1,
+             "(shared with C17) a quantified term given as a head argument keeps its conditions: nowhere is a quantifier replaced by the variable it selects"),
+        Rule("FLATTEN-EACH", _lazy("extra", "rule_flatten_paths"), 2,
+             "(shared with C16) every element of a flattened collection has an identity of its own: an instance is built per satisfying assignment, not per parent"),
     ],
     explanation="All clauses are weak but necessary: arguments evaluated under the current binding, one construction "
                 "per combination, no retrieval instead of construction for inferred variables, existing objects passed "
@@ -1060,6 +1120,12 @@ register(PropertySpec(
              "an evaluation method that delegates to another evaluation method of the same node hands the request for false rows on unchanged (entity and set_of sub-queries behave alike on the left of `|`)"),
         Rule("SELECTOR-NO-CACHE", _lazy("cacheidx", "rule_selector_no_cache"), 1,
              "conclusion selectors never answer from a cache (a replayed row would take its conclusion from a stale branch flag, and which rows are replayed depends on the order of operands and domains)"),
+        Rule("REPLAY-OR-EVALUATE", _lazy("cacheidx", "rule_replay_or_evaluate"), 2,
+             "per row of its first operand an operator either replays the cached rows of the second or evaluates it, then goes on with the next row (CFG path rule at every per-row replay site)"),
+        Rule("LOGIC-TRUTH", _lazy("logic", "rule_logic_truth"), 12,
+             "(shared with C01) the truth each operator assigns to a row is the truth table of its operator; the else-if tries its right side on the incoming binding when the left produced nothing"),
+        Rule("FORALL-TOTAL-ROWS", _lazy("forall", "rule_forall_total_rows"), 1,
+             "(shared with C10) rows of the condition are completed over ALL the variables they leave unbound before the intersection, whichever branch of an or_ produced them"),
     ],
     explanation="Two of the six listed rewrites are decided: mirrored comparisons and contains/in_, by the OPDEN "
                 "denotation rule (C01). Commutativity/associativity of and/or, declaration/selection order and domain "
